@@ -27,7 +27,7 @@ m = {
     },
     'engines': [
         {'name': 'rapid', 'path': 'harness/', 'serves_properties': sorted(PROPS),
-         'kind_free_text': 'pgregory.net/rapid v1.3.0 property-based tests (plain and state-machine), sharded by the python driver ./check; Go native fuzz targets in the thorough tier of the decoder properties (C10, C18) and of the history properties (C02, C09)'},
+         'kind_free_text': 'pgregory.net/rapid v1.3.0 property-based tests (plain and state-machine), sharded by the python driver ./check; Go native fuzz targets in the thorough tier of the decoder properties (C10, C18) and of the history properties (C02, C09, C17)'},
     ],
     'checks': [],
     'not_applicable': [{'property_id': k, 'reason': NOT_APPLICABLE.get(k, 'no check built yet (work in progress); will be claimed once its check exists and is silent on the unchanged tree')}
